@@ -67,7 +67,7 @@ let eval = function
           run_hist Coin.toy_coin_step Coin.toy_grind
             (Coin.toy_coin_new (ebytes field) elems)
             (Stdlib.List.map (parse_op mkd field) ops)
-      | "w0" | "w1" | "w2" | "w3" ->
+      | "w0" | "w1" | "w2" | "w3" | "w4" ->
           let mode = z (Stdlib.String.sub hasher 1 1) in
           run_hist (Coin.wide_step mode) (Coin.wide_grind mode)
             (Coin.wide_coin_new mode (ebytes field) elems)
